@@ -68,7 +68,14 @@ void ares_close_connection(ares_conn_t *conn, ares_status_t requeue_status)
 
   ares_llist_destroy(conn->queries_to_conn);
 
-  ares_conn_sock_state_cb_update(conn, ARES_CONN_STATE_NONE);
+  /* Tell the application to stop watching the socket.  Moving the queries
+   * above may have run callbacks, and a callback may have changed the server
+   * list: conn->server may be gone by now, so use the channel taken at entry
+   * instead of going through ares_conn_sock_state_cb_update(). */
+  if ((conn->state_flags & ARES_CONN_STATE_CBFLAGS) != ARES_CONN_STATE_NONE &&
+      channel->sock_state_cb) {
+    channel->sock_state_cb(channel->sock_state_cb_data, conn->fd, 0, 0);
+  }
 
   ares_socket_close(channel, conn->fd);
 
